@@ -55,11 +55,11 @@ func (c19) Budget(tier string) runner.Budget {
 
 func (c19) Describe() runner.Description {
 	return runner.Description{
-		Rule:        "each history is 3..40 seeded group-chain operations on a booted node: AddGroup(valid successor; its unauthenticated GroupHeight wire field holds the right value, 0, a stale position, a later position or 2^64-1), AddGroup(wrong predecessor / unknown parent / duplicate / a valid successor whose begin time cannot be encoded by the store), two different valid successors submitted concurrently under the seeded scheduler (exactly one may be accepted), remove-last-group (the operation a group-fork switch performs), restart. After every operation the invariant is checked on the live node AND (fault enumeration, exhaustive per history) on a fresh incarnation booted from the disk image taken right after that operation: LastGroup reachable from genesis by predecessor links, Count = list length, GetGroupByHeight(i) = i-th element for i<count and nil for i in [count,count+3], every listed group retrievable by id, removed ones not, GetSyncGroupsById = next <=5 successors; compared with a slice reference model. evaluations = invariant evaluations (live + restarted). distinct_nontrivial = distinct op-kind sequences containing a remove. Crash points INSIDE save/remove (between their individual store writes) are also booted; the property's quantifier only covers restarts after operations, so those images are only required to boot, and their self-consistency is reported as probes (midop_*), not as violations.",
+		Rule:        "each history is 3..40 seeded group-chain operations on a booted node: AddGroup(valid successor; its unauthenticated GroupHeight wire field holds the right value, 0, a stale position, a later position or 2^64-1), AddGroup(wrong predecessor / unknown parent / duplicate / a valid successor whose begin time cannot be encoded by the store), two different valid successors submitted concurrently under the seeded scheduler (exactly one may be accepted), remove-last-group (the operation a group-fork switch performs), the chain's own fork-switch removal down to an ancestor 1-3 groups below the top (alone, or racing with the arrival of a valid successor under the seeded scheduler: whichever runs first, the chain must end at the ancestor), restart. After every operation the invariant is checked on the live node AND (fault enumeration, exhaustive per history) on a fresh incarnation booted from the disk image taken right after that operation: LastGroup reachable from genesis by predecessor links, Count = list length, GetGroupByHeight(i) = i-th element for i<count and nil for i in [count,count+3], every listed group retrievable by id, removed ones not, GetSyncGroupsById = next <=5 successors; compared with a slice reference model. evaluations = invariant evaluations (live + restarted). distinct_nontrivial = distinct op-kind sequences containing a remove. Crash points INSIDE save/remove (between their individual store writes) are also booted; the property's quantifier only covers restarts after operations, so those images are only required to boot, and their self-consistency is reported as probes (midop_*), not as violations.",
 		Assumptions: []string{"stub ConsensusHelper.CheckGroup accepts every group; group signatures are not what C19 is about", "the sqlite group index (second store) is not read by the oracle and starts empty in every incarnation"},
 		Real:        []string{"core/groupchain.go (AddGroup, save, remove, lookups, iterator, sync lookups)", "middleware/db + goleveldb on simulated storage", "middleware/mysql (sqlite group index)", "node boot: middleware, service, core init"},
 		Stub:        []string{"ConsensusHelper", "network (not started)", "NTP clock"},
-		FaultKinds:  []string{"restart_after_op", "crash_inside_op", "concurrent_add", "wire_height_field_wrong"},
+		FaultKinds:  []string{"restart_after_op", "crash_inside_op", "concurrent_add", "wire_height_field_wrong", "fork_switch_removal", "concurrent_add_and_fork_switch"},
 		Exhaustive:  true,
 	}
 }
@@ -81,12 +81,19 @@ func (c19) Gen(seed uint64, tier string) json.RawMessage {
 	for i := 0; i < n; i++ {
 		x := r.Float()
 		switch {
+		case x < pRemove*0.3:
+			// fork switch: every group above an ancestor is removed through the chain's own removal
+			p.Ops = append(p.Ops, c19Op{K: "unwind", G: r.Range(1, 3)})
 		case x < pRemove:
 			p.Ops = append(p.Ops, c19Op{K: "remove"})
 		case x < pRemove+0.08:
 			p.Ops = append(p.Ops, c19Op{K: "restart"})
 		case x < pRemove+0.2:
 			p.Ops = append(p.Ops, c19Op{K: "addbad", G: next, Bad: []string{"pre", "parent", "dup", "time"}[r.Intn(4)]})
+			next++
+		case x < pRemove+0.24 && x >= pRemove+0.2:
+			// a fork switch racing with the arrival of a valid successor
+			p.Ops = append(p.Ops, c19Op{K: "addunwind", G: next, G2: r.Range(1, 3), S: r.U64()})
 			next++
 		case x < pRemove+0.3:
 			// two different valid successors of the current last group submitted concurrently
@@ -301,6 +308,57 @@ func (c19) Exec(raw json.RawMessage, st *simrt.Stats, log *simrt.Log) *simrt.Vio
 				m.list = append(m.list, g2.Id)
 			}
 			kinds += "p"
+		case "unwind":
+			k := op.G
+			if k > len(m.list)-1 {
+				k = len(m.list) - 1
+			}
+			if k <= 0 {
+				node.OnWrite = nil
+				continue
+			}
+			if !core.SimRemoveFromCommonAncestor(uint64(len(m.list) - 1 - k)) {
+				return simrt.Violationf("C19", "remove-failed", "unwind", i, "the ancestor at height %d is not retrievable", len(m.list)-1-k)
+			}
+			log.Add("%d unwind %d", i, k)
+			for j := 0; j < k; j++ {
+				m.removed[string(m.list[len(m.list)-1])] = true
+				m.list = m.list[:len(m.list)-1]
+			}
+			kinds += "u"
+			hasRemove = true
+			st.Fault("fork_switch_removal")
+		case "addunwind":
+			k := op.G2
+			if k > len(m.list)-1 {
+				k = len(m.list) - 1
+			}
+			if k <= 0 {
+				node.OnWrite = nil
+				continue
+			}
+			g := &types.Group{Id: c19ID(op.G), PubKey: []byte{1, 2, 3}, Signature: []byte{4}, Members: genesisMembers,
+				Header: &types.GroupHeader{Parent: m.list[0], PreGroup: m.list[len(m.list)-1], CreateHeight: uint64(10 * op.G), Extends: "sim", BeginTime: time.Unix(1700000000, 0).UTC()}}
+			g.Header.Hash = g.Header.GenHash()
+			anc := uint64(len(m.list) - 1 - k)
+			var addErr error
+			res := simsched.Run(simsched.Options{Seed: op.S, Policy: "random", MaxPreempt: -1, MaxSteps: 400000}, []string{"adder", "fork-switch"},
+				[]func(){func() { addErr = n.Groups.AddGroup(g) }, func() { core.SimRemoveFromCommonAncestor(anc) }})
+			if res.Panic != nil {
+				return simrt.Violationf("C19", "host-panic", "concurrent-add-and-unwind", i, "%v", res.Panic)
+			}
+			st.Fault("concurrent_add_and_fork_switch")
+			// serial outcomes: add then removal (the added group is above the ancestor and goes too), or removal
+			// then add (the successor's predecessor is gone: refused). Either way the chain ends at the ancestor;
+			// anything else is judged by the structural check below against that list.
+			for j := 0; j < k; j++ {
+				m.removed[string(m.list[len(m.list)-1])] = true
+				m.list = m.list[:len(m.list)-1]
+			}
+			m.removed[string(g.Id)] = true
+			log.Add("%d addunwind g=%d k=%d add-ok=%v count=%d", i, op.G, k, addErr == nil, n.Groups.Count())
+			kinds += "w"
+			hasRemove = true
 		case "remove":
 			if len(m.list) <= 1 {
 				node.OnWrite = nil
